@@ -263,6 +263,11 @@ impl Gen {
                 self.level(rest, depth + 1, inner_mc, &mut inner);
                 // after the nested construct, still inside this one
                 self.probes(inner_mc, &mut inner);
+                if c == Ctor::ForeachBraces && !inner_mc {
+                    // a variable of the body named like the iterator: from here on the name is the variable
+                    inner.push(Item::Defvar { name: "u".into(), value: int(10) });
+                    self.probes(inner_mc, &mut inner);
+                }
                 out.push(match c {
                     Ctor::ForeachBraces => Item::Foreach { var: "u".into(), list: E::List(vec![int(1), int(2)]), body: inner, braces: true },
                     Ctor::LetBraces => Item::Let { binds: vec![("g".into(), int(2))], body: inner, braces: true },
